@@ -21,7 +21,9 @@ package suites
 //	      script (age: scripted seconds that pass before the dial; dial 1/0; hs 1 ok, 0 peer
 //	      closes after the ClientHello, 2 peer answers in plaintext; end c = application
 //	      calls Close(), e = peer closes, x = peer hangs up together with its last line,
-//	      without waiting for the answer); "E<params joined by LF>" is one CAP event the
+//	      without waiting for the answer, k / q = the application calls Close() / Quit() from
+//	      its handler of a marker NOTICE that the peer sends in ONE write together with its
+//	      last line, so that this line is still queued when the client is told to stop); "E<params joined by LF>" is one CAP event the
 //	      peer sends on the current connection.
 //
 // Scripted time: the harness moves the policy's two timestamps into the past through a
@@ -194,6 +196,7 @@ type stsEvRec struct {
 	lines    []string // canonical renderings of what the client wrote in answer
 	closed   bool     // the client closed the connection instead of / after answering
 	hung     bool     // the peer hung up together with this line: no answer was collected
+	mark     byte     // end mode that made the line's answer unobservable: x, k or q
 	upgraded bool     // STS_UPGRADE_INIT fired while this event was outstanding
 }
 
@@ -223,13 +226,14 @@ type stsConnRec struct {
 // ---------------------------------------------------------------- the run
 
 type stsRun struct {
-	c       *girc.Client
-	mu      sync.Mutex
-	legs    []stsLeg // remaining scripts of the current Connect call
-	cur     *stsConnRec
-	wg      sync.WaitGroup
-	upg     int32
-	tlsConf *tls.Config
+	c        *girc.Client
+	mu       sync.Mutex
+	legs     []stsLeg // remaining scripts of the current Connect call
+	cur      *stsConnRec
+	wg       sync.WaitGroup
+	upg      int32
+	tlsConf  *tls.Config
+	quitSeen chan struct{} // the peer has read the QUIT line of the current connection
 }
 
 type stsDialer struct{ r *stsRun }
@@ -408,10 +412,33 @@ func (r *stsRun) servePeer(leg stsLeg, rec *stsLegRec, raw net.Conn) {
 				ev.lines = append(ev.lines, stsCanonLine(it.line))
 			}
 		}
+		if (leg.end == 'k' || leg.end == 'q') && k == len(leg.events)-1 {
+			// marker and last line in one write: the application's handler of the marker
+			// tells the client to stop while the line is queued behind it
+			marker := "close-wait"
+			if leg.end == 'q' {
+				marker = "quit-wait"
+			}
+			ev.hung, ev.mark = true, leg.end
+			rec.evs = append(rec.evs, ev)
+			send(":srv NOTICE me :" + marker + "\r\n" + stsEventLine(params) + "\r\n")
+			for {
+				it, ok := next()
+				if !ok || it.eof {
+					return
+				}
+				if strings.HasPrefix(it.line, "QUIT") {
+					select {
+					case r.quitSeen <- struct{}{}:
+					default:
+					}
+				}
+			}
+		}
 		send(stsEventLine(params) + "\r\n")
 		if leg.end == 'x' && k == len(leg.events)-1 {
 			// the peer hangs up at the very moment of its last line
-			ev.hung = true
+			ev.hung, ev.mark = true, 'x'
 			rec.evs = append(rec.evs, ev)
 			return
 		}
@@ -446,7 +473,13 @@ func (r *stsRun) servePeer(leg stsLeg, rec *stsLegRec, raw net.Conn) {
 	if leg.end == 'e' || leg.end == 'x' {
 		return // deferred Close: the peer goes away
 	}
-	r.c.Close()
+	if leg.end == 'q' {
+		send(":srv NOTICE me :quit-now\r\n")
+	} else if leg.end == 'k' {
+		send(":srv NOTICE me :close-now\r\n")
+	} else {
+		r.c.Close()
+	}
 	for {
 		it, ok := next()
 		if !ok || it.eof {
@@ -513,6 +546,35 @@ func runSTSOnce(sc stsScript) (recs []*stsConnRec, initPol string, elapsed time.
 	r := &stsRun{tlsConf: tconf}
 	r.c = girc.New(cfg)
 	r.c.Handlers.Add(girc.STS_UPGRADE_INIT, func(*girc.Client, girc.Event) { atomic.AddInt32(&r.upg, 1) })
+	r.quitSeen = make(chan struct{}, 1)
+	// the application: closes / quits when the marker arrives.  "-wait": a server line was
+	// sent in the same write; it is let into the receive queue first (no sleeping: the hook
+	// reports the queue length), so that it is handled after the client was told to stop.
+	r.c.Handlers.Add(girc.NOTICE, func(c *girc.Client, e girc.Event) {
+		txt := e.Last()
+		if strings.HasSuffix(txt, "-wait") {
+			for dl := time.Now().Add(stsPeerWait); c.VerifRxQueued() == 0 && time.Now().Before(dl); {
+				time.Sleep(50 * time.Microsecond)
+			}
+		}
+		switch {
+		case strings.HasPrefix(txt, "close-"):
+			c.Close()
+		case strings.HasPrefix(txt, "quit-"):
+			select {
+			case <-r.quitSeen:
+			default:
+			}
+			c.Quit("bye")
+			if strings.HasSuffix(txt, "-wait") {
+				// sendLoop calls Close() right after the QUIT went out
+				select {
+				case <-r.quitSeen:
+				case <-time.After(stsPeerWait):
+				}
+			}
+		}
+	})
 	if sc.init != "" {
 		f := strings.Split(sc.init, ",")
 		if len(f) < 3 {
@@ -583,7 +645,7 @@ func renderSTS(initPol string, recs []*stsConnRec) string {
 				sb.WriteString(lg.first)
 				for _, ev := range lg.evs {
 					if ev.hung {
-						sb.WriteString(";x")
+						sb.WriteString(";" + string(ev.mark))
 						continue
 					}
 					parts := append([]string(nil), ev.lines...)
@@ -858,6 +920,15 @@ func stsOracle(sc stsScript, recs []*stsConnRec, slack time.Duration) string {
 				}
 			}
 			ack := lg.evs[ackIdx]
+			if ack.hung && lg.first == "T" && (ack.mark == 'k' || ack.mark == 'q') && !disabled && requested && lg.polAtDial.Enabled {
+				// the application stopped the client while the acknowledgement was queued:
+				// the line is still handled, on what still is a TLS connection
+				if _, has := kv["duration"]; has && last {
+					if !cr.polAfter.Enabled || cr.polAfter.UpgradePort != lg.polAtDial.UpgradePort {
+						return fmt.Sprintf("policy-dropped: connect %d: a valid policy acknowledged on TLS while the application was closing the client was dropped (server %s)", ci, cr.server)
+					}
+				}
+			}
 			if ack.hung {
 				// the server hung up with the acknowledgement: nothing can be said about
 				// lines, but a valid policy on plaintext must still lead to the secure redial
@@ -961,7 +1032,7 @@ func stsSig(recs []*stsConnRec) string {
 			default:
 				for _, ev := range lg.evs {
 					if ev.hung {
-						s += "x"
+						s += string(ev.mark)
 					} else if ev.upgraded {
 						s += "U"
 					} else if ev.closed {
@@ -1166,6 +1237,9 @@ func genSTSScenario(r *rand.Rand) Case {
 	if r.Intn(4) == 0 {
 		return genSTSRenewal(r, bits)
 	}
+	if r.Intn(8) == 0 {
+		return genSTSCloseQueued(r, bits)
+	}
 	init := ""
 	switch r.Intn(6) {
 	case 0:
@@ -1221,6 +1295,35 @@ func genSTSRenewal(r *rand.Rand, bits string) Case {
 	return c
 }
 
+// genSTSCloseQueued: the application calls Close() / Quit() while the acknowledgement is still
+// queued (end modes k, q), on the TLS connection of a held policy, on the TLS connection of an
+// upgrade, and on plaintext; further Connect calls follow.  Only valid policies / other
+// capabilities are acknowledged there (an injected ERROR racing with the shutdown has no
+// determined return value).
+func genSTSCloseQueued(r *rand.Rand, bits string) Case {
+	bits = strings.ReplaceAll(bits, "L", "")
+	e := Pick(r, "k", "k", "q")
+	dur := Pick(r, "600", "900", "3600")
+	tok := "sts=duration=" + dur
+	if r.Intn(2) == 0 {
+		tok += ",port=7000"
+	}
+	tlsLeg := []string{"L0,1,1," + e, stsLS(tok, "multi-prefix"), stsACK("sts", "multi-prefix")}
+	var c Case
+	switch r.Intn(4) {
+	case 0: // policy held
+		c = append(Case{bits, "6697," + Pick(r, "600", "60") + ",5", "C"}, tlsLeg...)
+	case 1: // upgrade, then the TLS connection is closed by the application
+		c = append(Case{bits, "", "C", "L0,1,1,c", stsLS("sts=port=6697"), stsACK("sts")}, tlsLeg...)
+	case 2: // plaintext: the upgrade's acknowledgement is queued behind the marker
+		c = append(Case{bits, "", "C", "L0,1,1," + e, stsLS("sts=port=6697", "multi-prefix"), stsACK("sts")}, "L0,1,1,c", stsLS(tok), stsACK("sts"))
+	default: // no sts at all
+		c = Case{bits, "", "C", "L0,1,1," + e, stsLS("multi-prefix", "away-notify"), stsACK("multi-prefix")}
+	}
+	c = append(c, "C", fmt.Sprintf("L%d,1,1,c", 5*r.Intn(3)), "C", fmt.Sprintf("L%d,0,1,c", 5*r.Intn(100)), "C", "L0,1,1,c")
+	return c
+}
+
 // fixed scenarios: the shapes the property's clauses talk about
 func fixedSTSScenarios() []Case {
 	up := func(extra ...string) []string {
@@ -1265,6 +1368,17 @@ func fixedSTSScenarios() []Case {
 		out = append(out, cat(hd, []string{"C", "L0,1,1,c", stsLS("sts=duration=100"), stsACK("sts"), "L0,1,1,c", "C", "L0,1,1,c"}))
 		out = append(out, cat(hd, up(), tlsLeg("sts=port=6697", "c"), []string{"C", "L0,1,1,c"}))
 		out = append(out, cat([]string{bits, "6697,600,5"}, []string{"C"}, tlsLeg("sts=preload", "c"), []string{"C", "L0,1,1,c"}))
+		// the application closes / quits while the acknowledgement is still queued
+		for _, e := range []string{"k", "q"} {
+			if strings.Contains(bits, "L") {
+				break // sts unrequested under SSL: the acknowledgement is invalid, its ERROR races with the shutdown
+			}
+			out = append(out, cat([]string{bits, "6697,600,5"}, []string{"C", "L0,1,1," + e, stsLS("sts=duration=900", "multi-prefix"), stsACK("sts", "multi-prefix"),
+				"C", "L5,1,1,c", "C", "L5,0,1,c", "C", "L0,1,1,c"}))
+			out = append(out, cat(hd, up(), []string{"L0,1,1," + e, stsLS("sts=duration=600,port=7000"), stsACK("sts"), "C", "L0,1,1,c", "C", "L5,0,1,c"}))
+			out = append(out, cat(hd, []string{"C", "L0,1,1," + e, stsLS("sts=port=6697"), stsACK("sts"), "L0,1,1,c", stsLS("sts=duration=600"), stsACK("sts"), "C", "L0,1,1,c"}))
+			out = append(out, cat(hd, []string{"C", "L0,1,1," + e, "C", "L0,1,1,c"}))
+		}
 		// removals acknowledged in the same line or later
 		out = append(out, cat(hd, []string{"C", "L0,1,1,c", stsLS("sts=port=6697"), stsACK("sts", "-sts"), "L0,1,1,c", "C", "L0,1,1,c", stsLS("sts=port=6697"), stsACK("-sts", "sts"), "L0,1,1,c"}))
 		out = append(out, cat([]string{bits, "6697,600,5"}, []string{"C"}, tlsLeg("sts=duration=900", "c")[:3], []string{stsACK("-sts"), stsACK("multi-prefix"), "C", "L0,1,1,c"}))
